@@ -500,11 +500,19 @@ func (pe *PolicyEngine) insertAdminNetworkPolicy(anp *apisv1a.AdminNetworkPolicy
 	if pe.adminNetpolsMap[anp.Name] {
 		return errors.New(netpolerrors.ANPsWithSameNameErr(anp.Name))
 	}
-	pe.adminNetpolsMap[anp.Name] = true
+	// a priority outside the defined range, or shared with a policy already held, has no defined outcome: rejected here,
+	// as sortAdminNetpolsByPriority does for a batch, so that no way of filling the engine resolves it by insertion order
+	if !(*k8s.AdminNetworkPolicy)(anp).HasValidPriority() {
+		return errors.New(netpolerrors.PriorityValueErr(anp.Name, anp.Spec.Priority))
+	}
 	// keep the list ordered by priority, so that policies are applied by priority whatever the insertion order was
 	idx := sort.Search(len(pe.sortedAdminNetpols), func(i int) bool {
 		return pe.sortedAdminNetpols[i].Spec.Priority > anp.Spec.Priority
 	})
+	if idx > 0 && pe.sortedAdminNetpols[idx-1].Spec.Priority == anp.Spec.Priority {
+		return errors.New(netpolerrors.SamePriorityErr(pe.sortedAdminNetpols[idx-1].Name, anp.Name))
+	}
+	pe.adminNetpolsMap[anp.Name] = true
 	pe.sortedAdminNetpols = append(pe.sortedAdminNetpols, nil)
 	copy(pe.sortedAdminNetpols[idx+1:], pe.sortedAdminNetpols[idx:])
 	pe.sortedAdminNetpols[idx] = (*k8s.AdminNetworkPolicy)(anp)
